@@ -81,12 +81,27 @@ func TestMain(m *testing.M) {
 
 // stuckBound is the time without any probe event or thread completion after
 // which an unfinished case is looked at as a stuck state.
+//
+// The first stuck verdict of a process needs the full bound (60 s where the
+// expected time is milliseconds). Once one has been reached the bound is cut to
+// a sixth (>= 5 s) so that minimising the failing case stays affordable.
 func stuckBound() time.Duration {
+	b := 60 * time.Second
 	if v, err := strconv.Atoi(os.Getenv("VERIF_C12_STUCK_SECONDS")); err == nil && v > 0 {
-		return time.Duration(v) * time.Second
+		b = time.Duration(v) * time.Second
 	}
-	return 60 * time.Second
+	if stuckSeen {
+		if b /= 6; b < 5*time.Second {
+			b = 5 * time.Second
+		}
+	}
+	return b
 }
+
+var (
+	stuckSeen bool // a stuck-state violation was found in this process
+	violated  bool // the directed cases already found a violation
+)
 
 var inconclusive []string
 
@@ -137,7 +152,9 @@ func runCase(c Case) *hx.Failure {
 
 	// --- set up the interpreter -------------------------------------------------
 	erp := interpreter.NewECALRuntimeProvider("c12", nil, util.NewNullLogger())
-	defer erp.Cron.Stop()
+	// No cron triggers are used. The cron thread is stopped at once and not at the end of
+	// the case: Cron.Stop (krotik/common) deadlocks when it coincides with the one second tick.
+	erp.Cron.Stop()
 	proc := engine.NewProcessor(workers)
 	proc.SetFailOnFirstErrorInTriggerSequence(true)
 	proc.ThreadPool().TooManyThreshold = math.MaxInt32 // keeps the "queue is filling up" warning off stderr
@@ -349,6 +366,9 @@ wait:
 		close(st.abort)
 		if first != nil {
 			return first
+		}
+		if f != nil {
+			stuckSeen = true
 		}
 		return f
 	}
@@ -621,6 +641,7 @@ func TestRegress(t *testing.T) { hx.Regress(t, runCase) }
 
 // TestExhaustive runs the fixed list of directed cases (sharded).
 func TestExhaustive(t *testing.T) {
+	defer func() { violated = violated || t.Failed() }()
 	cases := directedCases()
 	hx.Enumerate(t, "directed", func(yield func(Case) bool) {
 		for _, c := range cases {
@@ -634,6 +655,9 @@ func TestExhaustive(t *testing.T) {
 }
 
 func TestProp(t *testing.T) {
+	if violated {
+		t.Skip("the directed cases already found a violation (its replay file is kept)")
+	}
 	hx.Check(t, drawCase, runCase)
 	failInconclusive(t)
 }
